@@ -79,7 +79,7 @@ def run(ctx):
     r = corecheck.regen_and_validate(ctx, NEEDED)
     if r is not None and not ctx.broken():
         ctx.prove(MODULE, THEOREMS, timeout=2400)
-        ctx.prove("AurelVerif.Props.C09b", ["AurelVerif.C09." + t for t in ("fluxup3_spec", "T_dot_n", "flux_closed", "fluxdown_closed", "quad_form_inverse", "trace_inverse", "Ttrace_closed")], timeout=2400)
+        ctx.prove("AurelVerif.Props.C09b", ["AurelVerif.C09." + t for t in ("fluxup3_spec", "T_dot_n", "flux_closed", "fluxdown_closed", "quad_form_inverse", "trace_inverse", "Ttrace_closed", "lower_raise", "Stress_specs", "stress_closed")], timeout=2400)
         ctx.forbidden_scan(["AurelVerif/Props/C09.lean", "AurelVerif/Props/C09b.lean", "AurelVerif/Props/C08.lean", "AurelVerif/Lemmas/CoreTac.lean",
                             "AurelVerif/Gen/CoreKeys.lean"])
         if ctx.tier == "thorough":
@@ -98,5 +98,5 @@ MANIFEST = {
     "category": "proof",
     "technique": "Lean 4 theorems (field_simp / linear_combination over an arbitrary field) about formulas regenerated from core.py by symbolic execution; translation validation each run; closed-form oracle on the real code as failing-input search",
     "text": "Proof for every lapse != 0, shift, symmetric metric, velocity with W^2(1-v^2)=1, rho0, eps, p: u^mu from (W, v, alpha, beta) is unit timelike, u_mu = g u, u.n = -W, u_i = W v_i, h projects orthogonally to u, T_mu_nu = rho u_mu u_nu + p h_mu_nu with indices DOWN, E = T n n = rho h W^2 - p, the definitions of flux / stress / pressure / trace / conserved variables as the stated contractions, both alternatives of trace T, and the rho/rho0/eps/enthalpy relations including the value at rho0 = 0.",
-    "note": "Trusted: Lean kernel + 3 standard axioms; symbolic-execution translator (validated each run); numpy semantics; exact arithmetic. Closed forms S^i = rho h W^2 v^i and S_i = rho h W^2 v_i are theorems (C09b); trace T = -rho + 3p is a theorem too (Ttrace_closed); the closed form of S_ij is covered by the numerical oracle only.",
+    "note": "Trusted: Lean kernel + 3 standard axioms; symbolic-execution translator (validated each run); numpy semantics; exact arithmetic. Closed forms S^i = rho h W^2 v^i and S_i = rho h W^2 v_i are theorems (C09b); trace T = -rho + 3p is a theorem too (Ttrace_closed).",
 }
